@@ -31,6 +31,31 @@ from ..core import Prop
 
 compat.install()
 
+
+def _single_threaded_blas():
+    """harness instrument (performance only): the matrix products of the 1024 x 1024 chunks are run on one BLAS thread.
+    With the default thread pool (one thread per core) a check that shares the machine with other checks spends 10 s
+    instead of 0.3 s in a single 2048-marker case."""
+    import ctypes
+    try:
+        done = set()
+        for line in open("/proc/self/maps"):
+            path = line.split()[-1]
+            if "openblas" in path.lower() and path not in done:
+                done.add(path)
+                lib = ctypes.CDLL(path)
+                for name in ("scipy_openblas_set_num_threads64_", "scipy_openblas_set_num_threads", "openblas_set_num_threads64_",
+                             "openblas_set_num_threads"):
+                    fn = getattr(lib, name, None)
+                    if fn is not None:
+                        fn(ctypes.c_int(1))
+                        break
+    except Exception:               # never a verdict
+        pass
+
+
+_single_threaded_blas()
+
 F = Fraction
 HALF = F(1, 2)
 LN2_HALF = math.log(2.0) / 2.0
@@ -276,6 +301,8 @@ def _call_genic(case, pg, gm, fobj=None):
             return cls.from_gmod(gm, pg, 10, mem=case["mem"])
         if via == "gmod_nomem":
             return cls.from_gmod(gm, pg, 10)
+        if via == "factory_algmod":
+            return (fobj or m["genic_fcty_two"]()).from_algmod(gm, pg, 10)
         return (fobj or m["genic_fcty_two"]()).from_gmod(gm, pg, 10)
 
 
@@ -286,6 +313,8 @@ def _call_uc(case, pg, gm, mf, fobj=None):
     cls = getattr(m["ucmod"], f"UsefulnessCriterion{cname}MateSelectionProblem")
     npar = NPARENT[sch]
     xm = cls._calc_xmap(pg.ntaxa, npar, case["unique_parents"])
+    if case.get("uc_method") == "xmap_custom":
+        xm = numpy.array(case["xmap"], dtype=int)          # caller-supplied configurations: any order, repeats allowed
     k = len(xm)
     if cname == "Subset":
         space = dict(ndecn=1, decn_space=numpy.arange(k), decn_space_lower=None, decn_space_upper=None)
@@ -306,7 +335,7 @@ def _call_uc(case, pg, gm, mf, fobj=None):
                     vmatfcty=kw["vmatfcty"], gmapfn=mf, unique_parents=bool(case["unique_parents"]), ncross=1, nparent=npar,
                     nmating=numpy.array([1, 3, 3]), nprogeny=numpy.array([max(npg - 1, 1), npg, npg + 30]), nobj=len(case["u"][0]))
         prob = prot.problem(pg, None, None, None, gm, 0, 0)
-    elif case.get("uc_method") == "xmap":
+    elif case.get("uc_method") in ("xmap", "xmap_custom"):
         prob = cls.from_pgmat_gpmod_xmap(xmap=xm, **kw)
     else:
         prob = cls.from_pgmat_gpmod(**kw)
@@ -678,7 +707,13 @@ class C12(Prop):
             "genic, uc (all four problem classes x both constructors and the four selection protocols' problem()), util (k up to 21, r down to 2^-20), chunks, wide (128-1030 "
             "markers per group, default mem; 4100 markers in the thorough tier), reject make up the rest.  The corpus holds, for "
             "each of the 24 matrix entry points, three stress cases (positions > 10 map units + Fortran order + labels <= 0 + exact "
-            "chunk multiples; offsets 1e9 with gaps 0.5 / 1e-5 / 1e-8; 20 selfing generations at tight linkage).  All index tuples (self hybrids included) are compared with the "
+            "chunk multiples; offsets 1e9 with gaps 0.5 / 1e-5 / 1e-8; 20 selfing generations at tight linkage; nself = inf at tight linkage).  "
+            "Round 4: sparse trait-specific effects (a trait without effect on a whole linkage group / anywhere, markers without any effect), "
+            "nearly unlinked markers inside a group (1-2r = 2^-17 .. 2^-41; 6-15 Morgan), many taxa (9, 10, 17; 33 thorough; 130 in the corpus: "
+            "tuples touching the first 3 / last 6 taxa), 12 linkage groups, 5 traits, linkage groups of exactly 1 and 2 default chunks (1024 / 2048 "
+            "markers), usefulness criterion for caller-supplied configurations (any parent order, repeated rows) and for effects of 1e-8 .. 1e4, "
+            "genic factory.from_algmod; rejected inputs are judged by the property only (a rejection is never demanded).  "
+            "All index tuples (self hybrids included) are compared with the "
             "enumeration.  Non-trivial = vmat/uc/hist case with >= 2 genetically distinct parents, a group with >= 2 segregating "
             "linked markers and (vmat) a chunk size smaller than that group; genic case with a segregating marker; util with "
             "0 < r < 1/2; chunks with >= 2 chunks")
@@ -693,6 +728,7 @@ class C12(Prop):
         "harness instrument: module global `numpy` of the genic classes replaced by a proxy whose `empty` returns "
         "NaN-filled storage (allowed by numpy.empty's contract) so never-written cells are observable",
         "statistics.NormalDist for the selection intensity pdf(ppf(1-p))/p (independent of scipy)",
+        "harness instrument (performance only): numpy's OpenBLAS is set to one thread in the checking process",
     ]
     ASSUMPTIONS = [
         "genotypes are coded {0,1} per phase; inbred parents for the two-/three-/four-way schemes",
@@ -734,14 +770,14 @@ class C12(Prop):
             pos = rng.choice([0, 0, 1, 3] + ([21, 40, 500, 50000] if offsets else []))
             for k in range(s):
                 if k:
-                    pos += rng.choice([0, 1, 1, 1, 2, 2, 3, 5])
+                    pos += rng.choice([0, 1, 1, 1, 2, 2, 3, 5] + ([17, 24, 36] if offsets else []))
                 g2.append(pos)
         return sizes, g2
 
     def _mk_posf(self, rng, sizes, tight=False):
         """arbitrary float positions (Morgan) for the real Haldane function"""
         gaps = [0.0, 1e-8, 1e-5, 1e-3, 0.01, 0.05, 0.1, 0.3] if tight else \
-               [0.0, 1e-8, 1e-5, 1e-3, 0.01, 0.1, 0.25, 0.5, 1.0, 3.0, 40.0]
+               [0.0, 1e-8, 1e-5, 1e-3, 0.01, 0.1, 0.25, 0.5, 1.0, 3.0, 6.0, 9.0, 12.0, 40.0]
         out = []
         for s in sizes:
             pos = rng.choice([0.0, 0.0, 0.013, 7.5, 12.0, 250.0, 25000.0, 1e9])
@@ -755,12 +791,29 @@ class C12(Prop):
             out.extend(grp)
         return [canon.enc(float(x)) for x in out]
 
-    def _mk_u(self, rng, p, nt, scale=1):
+    def _mk_u(self, rng, p, nt, scale=1, sizes=None):
         style = rng.random()
         vals = [-3, -2, -1, 1, 2, 3, 0] if style < 0.6 else [F(-3, 2), F(-1, 2), F(1, 2), 1, 2, F(5, 2), 0]
+        rows = [[rng.choice(vals) for _ in range(nt)] for _ in range(p)]
+        if sizes is not None and rng.random() < 0.3:
+            # sparse, trait-specific architecture: a trait without any effect on a whole linkage group / anywhere,
+            # markers without effect on any trait
+            st = 0
+            for sz in sizes:
+                for t in range(nt):
+                    if rng.random() < 0.4:
+                        for i in range(st, st + sz):
+                            rows[i][t] = 0
+                st += sz
+            if rng.random() < 0.25:
+                t = rng.randrange(nt)
+                for i in range(p):
+                    rows[i][t] = 0
+            if rng.random() < 0.3:
+                rows[rng.randrange(p)] = [0] * nt
         if scale != 1:
-            return [[canon.enc(float(rng.choice(vals)) * scale) for _ in range(nt)] for _ in range(p)]
-        return [[canon.enc(rng.choice(vals)) for _ in range(nt)] for _ in range(p)]
+            return [[canon.enc(float(v) * scale) for v in r] for r in rows]
+        return [[canon.enc(v) for v in r] for r in rows]
 
     def _mk_forms(self, rng, c):
         """rarely used argument forms and memory layouts (same values)"""
@@ -795,10 +848,17 @@ class C12(Prop):
 
     def _vmat_case(self, rng, tier, scheme=None, flavour=None):
         scheme = scheme or rng.choice(["two", "two", "three", "three", "four", "dihybrid", "dihybrid"])
-        flavour = flavour or rng.choice(["plain"] * 5 + ["deep", "deep", "float", "float", "float"])
+        flavour = flavour or rng.choice(["plain"] * 10 + ["deep"] * 4 + ["float"] * 6 + ["taxa"])
         n = {"two": rng.choice([2, 3, 4]), "three": rng.choice([2, 3]), "four": rng.choice([2, 2, 3]),
              "dihybrid": rng.choice([1, 2, 3])}[scheme]
         pmax = {"two": 6, "three": 5, "four": 4, "dihybrid": 5}[scheme]
+        if flavour == "taxa":
+            # many taxa (past 8 / 16 / 32: blocked or vectorised taxa loops), few markers so that the enumeration per
+            # distinct haplotype combination stays cheap
+            big = [33] if tier == "thorough" else []
+            n = {"two": rng.choice([9, 10, 17] + big), "dihybrid": rng.choice([9, 10, 17] + big), "three": rng.choice([5, 9]),
+                 "four": 5}[scheme]
+            pmax = 3
         if flavour == "deep":
             pmax = 3
             if scheme in ("three", "four"):
@@ -817,15 +877,18 @@ class C12(Prop):
             nself = 1
         mapfn = rng.choice(["pow2", "pow2", "pow2", "haldane", "cap"])
         c = {"kind": "vmat", "scheme": scheme, "cov": cov, "via": via, "geno": self._mk_geno(rng, scheme, n, p),
-             "u": self._mk_u(rng, p, nt), "chr_sizes": sizes, "genpos2": g2, "mapfn": mapfn,
+             "u": self._mk_u(rng, p, nt, sizes=sizes), "chr_sizes": sizes, "genpos2": g2, "mapfn": mapfn,
              "mem": mem, "mem2": mem2, "nself": nself}
+        if flavour == "taxa":
+            c["nself"] = rng.choice([0, 0, 1])
+            c["mapfn"] = "pow2"
         if flavour == "deep":
-            c["nself"] = rng.choice([4, 5, 6, 7, 7, 8, 8, 10, 20])
+            c["nself"] = rng.choice([4, 5, 6, 7, 7, 8, 8, 10, 20, None])
             c["mapfn"] = rng.choice(["pow2", "haldane_f", "haldane_f"])
         if flavour == "float":
             c["mapfn"] = "haldane_f"
             if rng.random() < 0.3:
-                c["u"] = self._mk_u(rng, p, nt, scale=rng.choice([1e-4, 1e4, 1e-8]))
+                c["u"] = self._mk_u(rng, p, nt, scale=rng.choice([1e-4, 1e4, 1e-8]), sizes=sizes)
         if c["mapfn"] == "haldane_f":
             c["genposf"] = self._mk_posf(rng, sizes, tight=(flavour == "deep"))
         perm = list(range(n))
@@ -840,9 +903,9 @@ class C12(Prop):
         sizes, g2 = self._mk_layout(rng, rng.randint(1, 6))
         p = len(g2)
         nt = rng.choice([1, 2, 3])
-        via = rng.choice(["algmod", "gmod", "gmod_nomem"] + (["factory"] if scheme == "two" else []))
+        via = rng.choice(["algmod", "gmod", "gmod_nomem"] + (["factory", "factory_algmod"] if scheme == "two" else []))
         c = {"kind": "genic", "scheme": scheme, "via": via, "geno": self._mk_geno(rng, scheme, n, p),
-             "u": self._mk_u(rng, p, nt), "chr_sizes": sizes, "genpos2": g2, "mapfn": "pow2", "mem": rng.choice([1, 2, 1000])}
+             "u": self._mk_u(rng, p, nt, sizes=sizes), "chr_sizes": sizes, "genpos2": g2, "mapfn": "pow2", "mem": rng.choice([1, 2, 1000])}
         if rng.random() < 0.3:
             c["layout"] = {"geno": rng.choice(["F", "view", "rev"]), "u": rng.choice(["F", "view", None])}
         return c
@@ -860,12 +923,24 @@ class C12(Prop):
         c["unique_parents"] = rng.random() < 0.6
         c["upper_percentile"] = rng.choice(["1/10", "1/4", "1/2", "1/20", "1/1000", "9/10"])
         c["uc_class"] = rng.choice(UC_CLASSES)
-        c["uc_method"] = rng.choice(["gpmod", "xmap", "protocol"])
+        c["uc_method"] = rng.choice(["gpmod", "xmap", "protocol", "xmap_custom"])
         for k in ("via", "mem", "mem2", "perm", "nself_form", "mem_form"):
             c.pop(k, None)
         n = len(c["geno"][0])
         if c["unique_parents"] and n < NPARENT[c["scheme"]]:
             c["unique_parents"] = False
+        if c["uc_method"] == "xmap_custom":
+            # configurations as a caller may list them: any parent order (descending too), repeated rows, selfs
+            npar = NPARENT[c["scheme"]]
+            c["xmap"] = [[rng.randrange(n) for _ in range(npar)] for _ in range(rng.randint(1, 6))]
+            c["xmap"].append(sorted(c["xmap"][0], reverse=True))
+            c["unique_parents"] = False
+        if rng.random() < 0.2:
+            # tiny / large effect scales: variances of 1e-16 .. 1e8 next to means of any size
+            sc = rng.choice([1e-8, 1e-5, 1e4])
+            c["u"] = [[canon.enc(float(_fr(v)) * sc) for v in row] for row in c["u"]]
+            if sc < 1:
+                c["beta"] = [canon.enc(float(_fr(v)) * sc) for v in c["beta"]]
         return c
 
     def _util_case(self, rng):
@@ -977,10 +1052,10 @@ class C12(Prop):
     def _wide_case(self, rng, p=None, tier="quick", scheme=None, cov=None):
         """one long linkage group, two taxa with complementary genotypes (a single parental allele pattern per marker, so
         that the per-distance pair enumeration stays cheap)"""
-        p = p or rng.choice([128, 130, 200, 1030, 1030] + ([4100] if tier == "thorough" else []))
+        p = p or rng.choice([128, 130, 200, 1030, 1030, 2048] + ([4100, 4096] if tier == "thorough" else []))
         scheme = scheme or rng.choice(SCHEMES)
         cov = (rng.random() < 0.4) if cov is None else cov
-        if p > 2000:
+        if p > 2048:
             scheme = scheme if scheme != "four" else "three"
             cov = False
         elif p > 1000 and tier != "thorough":                      # keep the every-commit tier fast
@@ -1018,6 +1093,20 @@ class C12(Prop):
             else:
                 out.append(self._wide_case(rng, tier=tier))
         return out
+
+    def _taxa_case(self, base, sch, n, **kw):
+        r = __import__("random").Random(1000 + n)
+        pats = [[r.randint(0, 1) for _ in range(2)] for _ in range(n)]
+        pats[0], pats[1] = [0, 1], [1, 0]
+        g = [pats, [list(x) for x in pats]]
+        if sch == "dihybrid":
+            g = [pats, [[r.randint(0, 1) for _ in range(2)] for _ in range(n)]]
+            for k in (0, 8, 16, n - 2, n - 1):          # heterozygous taxa at the block boundaries / past index 127
+                if k < n:
+                    g[0][k], g[1][k] = [0, 1], [1, 0]
+        pm = list(range(n))
+        r.shuffle(pm)
+        return dict(base, scheme=sch, geno=g, u=[[1], [2]], chr_sizes=[2], genpos2=[0, 1], mem=None, mem2=1, perm=pm, **kw)
 
     def corpus(self):
         inb = lambda rows: [rows, [list(r) for r in rows]]
@@ -1094,6 +1183,10 @@ class C12(Prop):
                 out.append(dict(base, scheme=sch, cov=cv, via=via, geno=[[r[:3] for r in ph] for ph in g4], perm=[1, 0], chr_sizes=[3],
                                 u=[[1, 2], [1, -1], [2, 1]], mapfn="haldane_f", genposf=[canon.enc(12.0), canon.enc(12.001), canon.enc(12.011)],
                                 mem=None, mem2=1, nself=20, nprogeny=1))
+                #  D  (round 4) nself = inf at tight linkage, where the limit differs visibly from any `large` finite depth
+                out.append(dict(base, scheme=sch, cov=cv, via=via, geno=[[r[:3] for r in ph] for ph in g4], perm=[1, 0], chr_sizes=[3],
+                                u=[[1, 2], [1, -1], [2, 1]], mapfn="haldane_f", genposf=[canon.enc(0.0), canon.enc(0.001), canon.enc(0.011)],
+                                mem=1, mem2=None, nself=None, nself_form="float_inf" if cv else None, nprogeny=40, nmating=5))
         # --- histories on one factory / pgmat / gmod
         hb = {"kind": "hist", "family": "vmat", "scheme": "two", "cov": False, "via": "factory",
               "geno": inb([[0, 1, 1], [1, 0, 1], [1, 1, 0]]), "u": [[1, 2], [2, -1], [-3, 1]], "chr_sizes": [3],
@@ -1165,6 +1258,75 @@ class C12(Prop):
                         "genpos2": [0, 1, 0], "mapfn": "pow2", "mem": 2, "nself": 0})
         for lst, lsp, step in ((3, 10, 3), (3, 9, 3), (4, 4, 2), (0, 6, 3), (5, 6, 4), (0, 2048, 1024), (0, 1030, 1024), (2, 3, 1)):
             out.append({"kind": "chunks", "lst": lst, "lsp": lsp, "step": step})
+        # --- round 4 -------------------------------------------------------------------------------------------------
+        # sparse, trait-specific effects: trait 1 has no effect anywhere on the first linkage group, trait 0 none on the
+        # second, one marker without any effect; a third trait without any effect at all (variance 0 next to positive ones)
+        for sch in SCHEMES:
+            g4 = [[[0, 1, 1, 0], [1, 0, 0, 1]], [[1, 1, 0, 0], [1, 0, 1, 1]]] if sch == "dihybrid" else inb([[0, 1, 1, 0], [1, 0, 0, 1]])
+            for cv in (False, True):
+                out.append(dict(base, scheme=sch, cov=cv, via="gmod" if cv else "factory", geno=g4, perm=[1, 0], chr_sizes=[3, 1],
+                                u=[[1, 0, 0], [0, 0, 0], [-3, 0, 0], [0, 2, 0]], genpos2=[0, 1, 3, 0], mem=2, mem2=None, nself=1))
+        # nearly unlinked markers inside one linkage group: 1 - 2r = 2^-17, 2^-24, 2^-41; 6 and 15 Morgan with the real function
+        for sch in SCHEMES:
+            g3 = [[[0, 1, 1], [1, 0, 0]], [[1, 1, 0], [1, 0, 1]]] if sch == "dihybrid" else inb([[0, 1, 1], [1, 0, 0]])
+            out.append(dict(base, scheme=sch, geno=g3, perm=[1, 0], chr_sizes=[3], u=[[1, 2], [2, -1], [-3, 1]], genpos2=[0, 17, 41],
+                            mem=None, mem2=1, nself=1))
+            out.append(dict(tight, scheme=sch, geno=g3, perm=[1, 0], u=[[1], [2], [-3]], nself=1 if sch != "two" else 0,
+                            genposf=[canon.enc(0.0), canon.enc(6.0), canon.enc(15.0)], cov=(sch == "four")))
+        # many taxa (more than 8 / 16 / 127): all tuples against the enumeration
+        taxa_case = lambda sch, n, **kw: self._taxa_case(base, sch, n, **kw)
+        out.append(taxa_case("two", 130, nself=0, lite=True))
+        out.append(taxa_case("two", 17, nself=1, cov=True))
+        out.append(taxa_case("dihybrid", 17, nself=0))
+        out.append(taxa_case("dihybrid", 9, nself=1, cov=True, via="gmod"))
+        out.append(taxa_case("three", 9, nself=0, via="factory"))
+        out.append(taxa_case("four", 5, nself=1))
+        # usefulness criterion for caller-supplied configurations (any parent order, repeated rows), tiny effects
+        out.append(dict(uc, scheme="three", uc_method="xmap_custom", unique_parents=False, uc_class="Real", nself=1,
+                        xmap=[[2, 1, 0], [0, 2, 1], [1, 0, 0], [2, 1, 0], [0, 0, 1], [2, 2, 2]]))
+        out.append(dict(uc, scheme="four", uc_method="xmap_custom", unique_parents=False, uc_class="Subset",
+                        xmap=[[2, 1, 0, 1], [0, 1, 2, 1], [1, 1, 0, 2], [2, 0, 2, 0]]))
+        out.append(dict(uc, scheme="dihybrid", geno=[[[0, 1, 1], [1, 0, 1], [1, 1, 0]], [[1, 1, 0], [1, 0, 1], [0, 1, 0]]],
+                        uc_method="xmap_custom", unique_parents=False, uc_class="Integer", xmap=[[2, 0], [0, 2], [1, 1], [2, 2]]))
+        out.append(dict(uc, uc_method="xmap_custom", unique_parents=False, uc_class="Binary", xmap=[[2, 0], [1, 0], [0, 0]],
+                        u=[[canon.enc(1e-8), canon.enc(2e-5)], [canon.enc(2e-8), canon.enc(-1e-5)], [canon.enc(-3e-8), canon.enc(1e-5)]],
+                        beta=[canon.enc(1e-7), canon.enc(1.5e-5)]))
+        # a trait that segregates next to one that does not (sparse effects), all four problem classes
+        for cname in UC_CLASSES:
+            out.append(dict(uc, uc_class=cname, uc_method="gpmod", u=[[1, 0], [2, 0], [-3, 0]], unique_parents=False))
+        # many linkage groups (12 groups of two markers) and many traits (five: a 5 x 5 trait block per cell)
+        for sch, cv in (("two", False), ("three", True), ("dihybrid", False), ("four", False)):
+            gl = [[(k * 7 + i * 3 + (i * i) % 5) % 2 for i in range(24)] for k in range(2)]
+            gl[1] = [1 - v if i % 3 else v for i, v in enumerate(gl[0])]
+            gm_ = [gl, [list(r) for r in gl]] if sch != "dihybrid" else [gl, [[(v + (i % 4 == 0)) % 2 for i, v in enumerate(r)] for r in gl]]
+            out.append(dict(base, scheme=sch, cov=cv, via="algmod", geno=gm_, perm=[1, 0], chr_sizes=[2] * 12,
+                            u=[[1 + (i % 3), -1 + (i % 2) * 3] for i in range(24)], genpos2=[(i % 2) * (1 + i % 3) for i in range(24)],
+                            mem=1, mem2=None, nself=1))
+        out.append(dict(base, cov=True, u=[[1, 2, -1, 3, 1], [2, -1, 1, 0, -2], [-3, 1, 2, 1, 1], [1, 1, 0, -1, 2]], mem=2, mem2=None, nself=1))
+        out.append(dict(base, cov=True, scheme="dihybrid", via="gmod", geno=[[[0, 1, 1, 0], [1, 0, 0, 1]], [[1, 1, 0, 0], [1, 0, 1, 1]]], perm=[1, 0],
+                        u=[[1, 2, -1, 3, 1], [2, -1, 1, 0, -2], [-3, 1, 2, 1, 1], [1, 1, 0, -1, 2]], mem=2, mem2=None, nself=0))
+        # finding D37: completely linked markers whose effects cancel: the reported variance is -5.4e-16 (rounding), its
+        # square root NaN
+        us = [0.35, 1.1, 0.9, 0.1, -3.15, 0.7]
+        out.append({"kind": "uc", "scheme": "two", "cov": False, "geno": inb([[1] * 6, [0] * 6]), "u": [[canon.enc(v)] for v in us],
+                    "beta": [canon.enc(1.0)], "chr_sizes": [6], "genposf": [canon.enc(0.3)] * 6, "mapfn": "haldane_f", "nself": 0,
+                    "unique_parents": True, "upper_percentile": "1/10", "uc_class": "Subset", "uc_method": "gpmod"})
+        # genic class through the factory's from_algmod
+        out.append(dict(g, via="factory_algmod"))
+        # a linkage group of exactly two default chunks (2 x 1024 markers), every scheme
+        out.append(self._wide_case(wr, p=2048, scheme="two", cov=False))
+        out.append(dict(self._wide_case(wr, p=2048, scheme="three", cov=False, tier="thorough"), nself=0))
+        out.append(dict(self._wide_case(wr, p=2048, scheme="dihybrid", cov=True, tier="thorough"), nself=1))
+        out.append(dict(self._wide_case(wr, p=2048, scheme="four", cov=False, tier="thorough"), nself=0))
+        # one object set per entry family: effects edited in place, a genotype flipped, positions overwritten in place,
+        # between requests (every scheme, variance and covariance classes)
+        for sch in SCHEMES:
+            gh = [[[0, 1, 1], [1, 0, 1]], [[1, 1, 0], [1, 0, 0]]] if sch == "dihybrid" else inb([[0, 1, 1], [1, 0, 1]])
+            for cv in (False, True):
+                out.append(dict(hb, mapfn="pow2", scheme=sch, cov=cv, via="algmod" if cv else "factory_algmod", geno=gh,
+                                steps=[c0, {"op": "set_u", "i": 1, "t": 0, "v": 5}, dict(c0, mem=1),
+                                       {"op": "flip", "taxon": 0, "marker": 2, "phase": 0}, c0,
+                                       {"op": "set_genpos", "genpos2": [0, 2, 3], "inplace": True}, dict(c0, nself=1)]))
         return out
 
     def exhaustive(self, tier):
@@ -1180,6 +1342,14 @@ class C12(Prop):
         out.append(dict(self._wide_case(wr, p=4100, scheme="two", cov=False, tier="thorough"), nself=0))
         out.append(dict(self._wide_case(wr, p=4100, scheme="dihybrid", cov=False, tier="thorough"), nself=1))
         out.append(dict(self._wide_case(wr, p=4100, scheme="three", cov=False, tier="thorough"), nself=0))
+        for sch in SCHEMES:
+            out.append(dict(self._wide_case(wr, p=2048, scheme=sch, cov=(sch == "four"), tier="thorough"), nself=0))
+        out.append(dict(self._wide_case(wr, p=4096, scheme="dihybrid", cov=False, tier="thorough"), nself=0))
+        tb = {"kind": "vmat", "cov": False, "via": "algmod", "mapfn": "pow2"}
+        out.append(self._taxa_case(tb, "dihybrid", 130, nself=1, lite=True))
+        out.append(self._taxa_case(tb, "two", 130, nself=0, cov=True, lite=True))
+        out.append(self._taxa_case(tb, "four", 9, nself=0))
+        out.append(self._taxa_case(tb, "three", 17, nself=1, cov=True))
         haps = list(itertools.product((0, 1), repeat=3))
         for a in haps:
             for b in haps:
@@ -1270,6 +1440,13 @@ class C12(Prop):
             pg, gm, mf = _build(case)
             snap = (pg.mat.copy(), gm.u_a.copy(), pg.vrnt_genpos.copy())
             o = _call_vmat(case, pg, gm, mf, case["mem"])
+            if case.get("lite"):
+                # very many taxa: one request only (chunking and reordering are exercised by the other cases)
+                enc = canon.enc(o.mat)
+                return {"M": enc, "M2": None, "Mperm": None, "taxa": [str(t) for t in o.taxa], "taxa_in": [str(t) for t in pg.taxa],
+                        "taxa_perm": [str(pg.taxa[i]) for i in case["perm"]], "shape": list(o.mat.shape),
+                        "untouched": bool((snap[0] == pg.mat).all() and (snap[1] == gm.u_a).all()
+                                          and (snap[2] == pg.vrnt_genpos).all())}
             o2 = _call_vmat(case, pg, gm, mf, case["mem2"])
             pgp, gmp, mfp = _build(case, perm=case["perm"])
             op = _call_vmat(case, pgp, gmp, mfp, case["mem"])
@@ -1298,7 +1475,7 @@ class C12(Prop):
                 o = m["var_" + case["scheme"]].from_algmod(gm, pg, 1, 10, ns, mf, mem=mem)
             except Exception as e:          # these inputs are meant to be rejected
                 return {"raised": canon.exc_tag(e), "text": f"{type(e).__name__}: {e}"[:200]}
-            return {"raised": None, "finite": bool(numpy.isfinite(o.mat).all())}
+            return {"raised": None, "finite": bool(numpy.isfinite(o.mat).all()), "M": canon.enc(o.mat), "shape": list(o.mat.shape)}
         if k == "uc":
             pg, gm, mf = _build(case)
             return _call_uc(case, pg, gm, mf)
@@ -1356,7 +1533,16 @@ class C12(Prop):
         return [req] + self._lean_enum_reqs(sub, M)
 
     def _genic_req(self, sub):
-        return dict(self._setup_req(dict(sub, nself=0), sub.get("mem", 1000)), op="c12.genic", ploidy=2, scheme=sub["scheme"])
+        # small cases are answered by the LITERAL loops (numpy.empty, two assignments per pair; every cell written by
+        # Props/C12.genic_loops_written), the others by the closed forms
+        n = len(sub["geno"][0])
+        small = n ** NPARENT[sub["scheme"]] * _nmark(sub) * len(sub["u"][0]) <= 120
+        return dict(self._setup_req(dict(sub, nself=0), sub.get("mem", 1000)), op="c12.genic_loop" if small else "c12.genic",
+                    ploidy=2, scheme=sub["scheme"])
+
+    def _xmap_req(self, sub):
+        return {"op": "c12.xmap", "ntaxa": len(sub["geno"][0]), "nparent": NPARENT[sub["scheme"]],
+                "unique": bool(sub["unique_parents"])}
 
     # The driver is a pure function of the request.  Answers are memoised per process so that the self-test (the same
     # cases evaluated once per mutant) does not recompute identical model matrices; a request is sent at most once.
@@ -1401,13 +1587,13 @@ class C12(Prop):
         if k == "util":
             return [{"op": "c12.util", "fn": case["fn"], "r": case["r"], "nself": case["nself"], "t": case["t"]}]
         if k == "vmat":
-            return self._vmat_reqs(case, obs["M"])
+            return [] if case.get("lite") else self._vmat_reqs(case, obs["M"])
         if k == "wide":
             return []
         if k == "genic":
             return [self._genic_req(case)]
         if k == "uc":
-            return [dict(self._setup_req(case, None), op="c12.vmat", scheme=case["scheme"], cov=False)]
+            return [dict(self._setup_req(case, None), op="c12.vmat", scheme=case["scheme"], cov=False), self._xmap_req(case)]
         if k == "hist":
             reqs = []
             for (ix, sub), call in zip(_hist_subs(case), obs["calls"]):
@@ -1415,6 +1601,7 @@ class C12(Prop):
                     reqs.append(self._genic_req(sub))
                 elif sub["kind"] == "uc":
                     reqs.append(dict(self._setup_req(sub, None), op="c12.vmat", scheme=sub["scheme"], cov=False))
+                    reqs.append(self._xmap_req(sub))
                 else:
                     reqs.extend(self._vmat_reqs(sub, call["M"]))
             return reqs
@@ -1439,6 +1626,9 @@ class C12(Prop):
         U = _U(case)
         nt = len(U[0])
         tups = _all_tuples(sch, n)
+        if n > 40:
+            # very many taxa: the tuples that touch the first three or the last six taxa (past 127 for n = 130)
+            tups = [tp for tp in tups if any(i < 3 or i >= n - 6 for i in tp)]
         model = answers[0]["ok"] if answers else None
         tol = _tol(case)
         sc = [[float(_scale(U, s, t)) for t in range(nt)] for s in range(nt)]
@@ -1521,7 +1711,7 @@ class C12(Prop):
                 if cov and (t, s) in vals and not same(v, vals[(t, s)], s, t):
                     fails.append(("trait_symmetry", tup, f"cov[{s},{t}] != cov[{t},{s}] at {tup}"))
         # (g) Lean-side Spec: literal enumeration
-        lean_reqs = self._lean_enum_reqs(case, M)
+        lean_reqs = [] if case.get("lite") else self._lean_enum_reqs(case, M)
         for rq, ans in zip(lean_reqs, answers[1:]):
             if not ans["ok"]["ok"]:
                 tp = tuple(rq["_tuple"])
@@ -1592,8 +1782,8 @@ class C12(Prop):
                 pos += 1
                 v = self._check_genic(sub, call, ans)
             elif kind == "uc":
-                ans = answers[pos:pos + 1]
-                pos += 1
+                ans = answers[pos:pos + 2]
+                pos += 2
                 v = self._check_uc(sub, call, ans)
             else:
                 nreq = 1 + len(self._lean_enum_reqs(sub, call["M"]))
@@ -1714,7 +1904,10 @@ class C12(Prop):
             for t in range(nt):
                 sc = float(_scale(U, t, t))
                 g = canon.dec(got[t])
-                if isinstance(g, str) or not _near(g, canon.dec(mod[t]), tol, sc):
+                if mod[t] == "unwritten":                      # the model's loops leave the cell of numpy.empty untouched
+                    if not isinstance(g, str):
+                        bad_corr.append((tup, t, got[t], mod[t]))
+                elif isinstance(g, str) or not _near(g, canon.dec(mod[t]), tol, sc):
                     bad_corr.append((tup, t, got[t], mod[t]))
                 if isinstance(g, str):
                     fails.append(("uninitialised" if _is_skipped_diagonal(sch, tup) else "finite", tup,
@@ -1760,8 +1953,29 @@ class C12(Prop):
         want_x = [list(c) for c in (itertools.combinations(range(n), NPARENT[sch]) if case["unique_parents"]
                                     else itertools.combinations_with_replacement(range(n), NPARENT[sch]))]
         fails, bad_corr = [], []
+        if len(answers) > 1 and answers[1]["ok"] != want_x:          # the Lean model of triuix / triudix vs itertools
+            bad_corr.append(("xmap_model", answers[1]["ok"][:4], want_x[:4]))
+        if case.get("uc_method") == "xmap_custom":
+            want_x = [list(r) for r in case["xmap"]]
         if obs["xmap"] != want_x:
-            fails.append(("xmap", None, f"cross map {obs['xmap'][:4]}.. differs from the index tuples {want_x[:4]}.."))
+            bad_corr.append(("xmap", obs["xmap"][:4], want_x[:4]))
+        # Spec: the configurations the values are reported for are the requested crosses (as crosses: the order of the
+        # rows and of exchangeable parents inside a configuration is immaterial); every value is judged against the
+        # configuration reported next to it
+        def canon_cfg(cfg):
+            cfg = [int(v) for v in cfg]
+            if sch in ("two", "dihybrid"):
+                return tuple(sorted(cfg))
+            if sch == "three":
+                return (cfg[0],) + tuple(sorted(cfg[1:]))
+            return tuple(sorted([tuple(sorted(cfg[:2])), tuple(sorted(cfg[2:]))]))
+        ok_rows = all(len(r) == NPARENT[sch] and all(0 <= int(v) < n for v in r) for r in obs["xmap"])
+        if not ok_rows or sorted(canon_cfg(r) for r in obs["xmap"]) != sorted(canon_cfg(r) for r in want_x):
+            fails.append(("xmap", None, f"cross map {obs['xmap'][:4]}.. does not hold the requested crosses {want_x[:4]}.."))
+        if len(obs["uc"]) != len(obs["xmap"]):
+            fails.append(("xmap", None, f"{len(obs['uc'])} rows of values for {len(obs['xmap'])} configurations"))
+        if not ok_rows:
+            return bad_corr, fails
         enum = _oracle_matrix(case)
         tol = 1e-9
         for row, cfg in zip(obs["uc"], obs["xmap"]):
@@ -1770,24 +1984,31 @@ class C12(Prop):
             mcell = _get(model, tup)
             for t in range(nt):
                 sc = float(_scale(U, t, t))
-                msc = max(1.0, abs(float(pm[t])), inten * math.sqrt(sc))          # magnitude of the uc value
+                # magnitude of the uc value (no absolute floor: effects of 1e-8 give values of 1e-8)
+                msc = max(abs(float(pm[t])), max(abs(float(bv[k][t])) for k in range(n)), inten * math.sqrt(sc), 1e-300)
                 ucv = canon.dec(row[t])
                 if isinstance(ucv, str):
-                    fails.append(("finite", tup, f"uc{cfg} trait {t} = {ucv}"))
+                    # finding D37: the square root of a variance that rounding left slightly below zero (the enumerated
+                    # variance vanishes to 1e-15 of its natural scale) is NaN
+                    vanishing = enum is not None and abs(float(enum[tup][1][t][t])) <= 1e-15 * sc
+                    fails.append(("nan_vanishing_variance" if vanishing and ucv == "nan" else "finite", tup, f"uc{cfg} trait {t} = {ucv}"))
                     bad_corr.append((tup, t))
                     continue
                 mv = float(canon.dec(mcell[t]))
                 wantm = float(pm[t]) + inten * math.sqrt(max(mv, 0.0))
-                if abs(float(ucv) - wantm) > tol * msc:
+                # the variance itself is only known to 1e-12 of its natural scale; through the square root that is
+                # negligible for a segregating cross and up to i * 1e-6 * sqrt(scale) where the variance (nearly) vanishes
+                slack = lambda v: inten * (math.sqrt(max(v, 0.0) + 1e-12 * sc) - math.sqrt(max(v, 0.0)))
+                if abs(float(ucv) - wantm) > tol * msc + slack(mv):
                     bad_corr.append((tup, t, float(ucv), wantm))
                 if enum is not None:
                     mu, C = enum[tup]
                     ev = float(C[t][t])
                     emean = float(beta[t] + mu[t])
-                    if abs(emean - float(pm[t])) > 1e-9 * max(1.0, abs(emean)):
+                    if abs(emean - float(pm[t])) > 1e-9 * msc:
                         fails.append(("mean", tup, f"enumerated progeny mean {emean} != parental mean {float(pm[t])}"))
                     want = emean + inten * math.sqrt(max(ev, 0.0))
-                    if abs(float(ucv) - want) > tol * msc:
+                    if abs(float(ucv) - want) > tol * msc + slack(ev):
                         dev = (float(ucv) - float(pm[t])) / inten if inten else 0.0
                         diag0 = sch != "two" and _is_skipped_diagonal(sch, tup) and abs(dev) <= 1e-12
                         fails.append(("enum_selfhybrid" if diag0 else "enum", tup, f"uc {sch}{cfg} trait {t} = {float(ucv)!r}, mean + i*sqrt(enumerated "
@@ -1855,10 +2076,25 @@ class C12(Prop):
         want = answers[0]["ok"]                     # "ok" or the error tag of the model
         got = obs["raised"]
         corr = (want == "ok" and got is None) or (want != "ok" and got == want)
-        if case["variant"] == "valid":
+        var = case["variant"]
+        if var == "valid":
             spec = got is None and obs.get("finite", False)
+        elif got is not None:
+            spec = True                             # rejected
+        elif var in ("mem_zero", "ungrouped"):
+            # The property does not demand a rejection.  These inputs still describe a cross completely (a chunk size of 0
+            # can only mean `no limit`; the markers are already ordered by linkage group), so an implementation that
+            # answers must answer with the enumerated variances.
+            n, nt = len(case["geno"][0]), len(case["u"][0])
+            if obs.get("shape") != [n] * NPARENT[case["scheme"]] + [nt]:
+                spec = False
+            else:
+                _, fl, _, _ = self._check_vmat(dict(case, cov=False), obs["M"], [])
+                spec = not fl
         else:
-            spec = got is not None                  # an invalid input must not be answered with numbers
+            # no genetic positions / a negative selfing depth: outside the property's quantifier (no cross is described);
+            # a changed behaviour shows up as broken correspondence only
+            spec = True
         return {"corr": corr, "spec": bool(spec), "nontrivial": case["variant"] != "valid",
                 "detail": f"reject[{case['variant']},{case['scheme']}] impl={got} ({obs.get('text', '')}) model={want}",
                 "fails": [] if spec else [("reject", None)]}
@@ -1926,6 +2162,14 @@ class C12(Prop):
         minn = 1 if case.get("scheme") == "dihybrid" else 2
         if k == "uc" and case.get("unique_parents"):
             minn = max(minn, NPARENT[case["scheme"]])
+        # many taxa: first try to halve
+        if n > 8:
+            for keep in (list(range(n // 2)), list(range(n // 2, n)), [0, 1] + list(range(n - (n // 2), n))):
+                c = dict(case)
+                c["geno"] = [[ph[i] for i in keep] for ph in case["geno"]]
+                if "perm" in c:
+                    c["perm"] = list(range(len(keep)))
+                yield c
         # drop a taxon
         if n > minn:
             for t in range(n):
@@ -2266,6 +2510,101 @@ class C12(Prop):
             exec(compile(src, f"<mutant {cls.__name__}.{name}>", "exec"), mod.__dict__, ns)
             return lambda: patch(cls, name, ns[name])
 
+        # --- round 4: the classes of inputs / histories added in this round
+        # (2) tolerance-style snapping of nearly unlinked markers
+        muts.append(("four_way_nearly_unlinked_snapped_to_half", resrc(m["var_four"], m["var_mod_four"], [
+            ("r = gmapfn.mapfn(numpy.abs(gi - gj))", "r = gmapfn.mapfn(numpy.abs(gi - gj)); r = numpy.where(numpy.isclose(r, 0.5), 0.5, r)")])))
+
+        def d2_unlinked_zero(r, nself):
+            if nself == 0:
+                return (1.0 - 2.0 * r) ** 2
+            four_r = 4.0 * r
+            return numpy.where(r > 0.5 - 1e-7, 0.0, 1.0 - four_r + four_r * util.rprob_filial(r, nself + 1))
+
+        muts.append(("cov_D2s_zero_for_nearly_unlinked", lambda: many(
+            *[(lambda mod=mod: patch(mod, "cov_D2s", d2_unlinked_zero)) for mod in
+              [m[f"{a}_mod_{k}"] for a in ("var", "cov") for k in ("three", "four", "dihybrid")]],
+            lambda: patch(util, "cov_D2s", d2_unlinked_zero))))
+        # (1) two cooperating edits in vmat/util.py: memo on the identity of r + in-place completion of D1
+        def memo_inplace():
+            state = {"last": (None, None, None)}
+
+            def rprob(r, k):
+                last = state["last"]
+                if last[0] is r and last[1] == k:
+                    return last[2]
+                two_r = 2.0 * r
+                r_k = two_r / (1.0 + two_r)
+                if k < numpy.inf:
+                    r_k *= (1.0 - ((0.5 ** k) * ((1.0 - two_r) ** k)))
+                state["last"] = (r, k, r_k)
+                return r_k
+
+            def d1(r, nself):
+                if nself == 0:
+                    return 1 - 2 * r
+                D1 = rprob(r, nself + 1)
+                D1 *= -2.0
+                D1 += 1.0
+                return D1
+
+            def d2(r, nself):
+                if nself == 0:
+                    return (1.0 - 2.0 * r) ** 2
+                four_r = 4.0 * r
+                return 1.0 - four_r + four_r * rprob(r, nself + 1)
+            return lambda: many(util_everywhere("cov_D1s", d1), util_everywhere("cov_D2s", d2), lambda: patch(util, "rprob_filial", rprob))
+
+        muts.append(("rprob_filial_memo_completed_in_place_by_D1", memo_inplace()))
+        # (6) sparse effects: a linkage group skipped as soon as ONE trait has no effect on it
+        muts.append(("two_way_cov_group_skipped_if_any_trait_without_effect", resrc(m["cov_two"], m["cov_mod_two"], [
+            ("step = (lsp - lst) if mem is None else mem",
+             "step = (lsp - lst) if mem is None else mem\n        if numpy.any(numpy.all(u[lst:lsp] == 0.0, axis = 0)): continue")])))
+        muts.append(("dihybrid_markers_without_effect_on_first_trait_dropped", resrc(m["var_dihybrid"], m["var_mod_dihybrid"], [
+            ("ru = u[rst:rsp].T", "ru = (u[rst:rsp] * (u[rst:rsp,0:1] != 0.0)).T")])))
+        muts.append(("uc_mean_only_when_some_trait_does_not_segregate", resrc_static([
+            ("uc[i,:] = pmean + selection_intensity * numpy.sqrt(pvar)",
+             "uc[i,:] = pmean + (selection_intensity * numpy.sqrt(pvar) if numpy.all(pvar > 0.0) else 0.0)")])))
+        # three-way covariance: shortcut for female == male that forgets the factor 4
+        muts.append(("three_way_cov_self_hybrid_shortcut_quarter", resrc(m["cov_three"], m["cov_mod_three"], [
+            ("                            rdgeno23 = geno[0,female,rst:rsp] - geno[0,male,rst:rsp]",
+             "                            if male == female:\n"
+             "                                varA_mat[recurr,female,male,:,:] += varA_part21\n"
+             "                                continue\n"
+             "                            rdgeno23 = geno[0,female,rst:rsp] - geno[0,male,rst:rsp]")])))
+        # (3) sizes: many taxa, exact multiples of the default chunk size
+        muts.append(("dihybrid_male_loop_in_blocks_of_8_tail", resrc(m["var_dihybrid"], m["var_mod_dihybrid"], [
+            ("for male in range(0,female+1):",
+             "for male in (mm for mst in range(0,max(female,1),8) for mm in range(mst,min(mst+8,female+1))):")])))
+        muts.append(("two_way_mirror_through_int8_taxa_index", resrc(m["var_two"], m["var_mod_two"], [
+            ("    for female in range(1, ntaxa):\n        for male in range(0, female):\n            var_A[male,female,:] = var_A[female,male,:]",
+             "    tix = numpy.arange(ntaxa).astype(geno.dtype)\n    for female in tix[1:]:\n        for male in tix[:max(int(female),0)]:\n"
+             "            var_A[male,female,:] = var_A[female,male,:]")])))
+        muts.append(("two_way_exact_multiple_of_large_chunk_loses_last_block", resrc(m["var_two"], m["var_mod_two"], [
+            ("step = (lsp - lst) if mem is None else mem",
+             "step = (lsp - lst) if mem is None else mem\n        lsp = lsp - (step if (lsp - lst) > step and (lsp - lst) % step == 0 and step >= 512 else 0)")])))
+        # (4) caller-supplied configurations in any parent order
+        muts.append(("uc_variance_looked_up_at_sorted_configuration", resrc_static([
+            ("pvar = vmat[tuple(cconfig) + (slice(None),)]", "pvar = vmat[tuple(sorted(int(c) for c in cconfig)) + (slice(None),)]")])))
+        # nself = inf replaced by a `large` finite depth in one from_gmod
+        def gmod_inf_as_20(a, k):
+            cls = m[f"{a}_{k}"]
+            orig = cls.from_gmod.__func__
+
+            def from_gmod(c, gmod, pgmat, nmating, nprogeny, nself, gmapfn, **kw):
+                return orig(c, gmod, pgmat, nmating, nprogeny, 20 if nself == numpy.inf else nself, gmapfn, **kw)
+            return lambda: patch(cls, "from_gmod", classmethod(from_gmod))
+        muts.append(("dihybrid_cov_from_gmod_inf_taken_as_20_generations", gmod_inf_as_20("cov", "dihybrid")))
+        muts.append(("three_way_from_gmod_inf_taken_as_20_generations", gmod_inf_as_20("var", "three")))
+        # (5) secondary entry point: the genic factory's from_algmod
+        gf = m["genic_fcty_two"]
+        gorig = gf.from_algmod
+
+        def genic_fcty_from_algmod(self, algmod, pgmat, nprogeny, mem=1024, **kw):
+            out = gorig(self, algmod, pgmat, nprogeny, mem, **kw)
+            out.mat = out.mat * 0.5                       # 'per haploid genome'
+            return out
+        muts.append(("genic_factory_from_algmod_halved", lambda: patch(gf, "from_algmod", genic_fcty_from_algmod)))
         muts.append(("uc_protocol_passes_nprogeny_as_nself", resrc_method(
             m["ucprot"].UsefulnessCriterionRealSelection, m["ucprot"], [("nself = self.nself,", "nself = nprogeny_median,")], "problem")))
         muts.append(("uc_protocol_ignores_unique_parents", resrc_method(
